@@ -262,3 +262,15 @@ def _is_int_native(s):
 def is_int_literal(s):
     """int(s) succeeds (the same uninterpreted predicate the model of int(str) raises ValueError on)."""
     return _is_int_native(s)
+
+
+def _pytest_option_builder(ts):
+    _smt.CTX.sort('Val')
+    _smt.CTX.fun('pytest_option', ['String'], 'Val')
+    return _smt.CTX.app('pytest_option', *ts)
+
+
+@_native('(str) -> Val', _pytest_option_builder)
+def pytest_option(name):
+    """The value pytest's config object returns for an option name (uninterpreted)."""
+    raise NotImplementedError
